@@ -307,6 +307,7 @@ func (m *Machine) logUndoMap(mp *MapV) {
 			ents[i] = &c
 		}
 		m.undo = append(m.undo, undoRec{m: mp, ents: ents})
+		mp.epoch = -1 // logged once per path (restored to 0 on rollback)
 	}
 }
 
@@ -326,6 +327,18 @@ func (m *Machine) rollback() {
 			u.obj.val = u.old
 		case u.m != nil:
 			u.m.entries = u.ents
+			u.m.epoch = 0
+			u.m.index, u.m.symKeys = nil, 0
+			for _, e := range u.ents {
+				if e.repr != "" {
+					if u.m.index == nil {
+						u.m.index = map[string]*mapEntry{}
+					}
+					u.m.index[e.repr] = e
+				} else {
+					u.m.symKeys++
+				}
+			}
 		case u.ch != nil:
 			*u.ch = u.chs
 		}
